@@ -90,6 +90,12 @@ func TestC10(t *testing.T) {
 				}
 			}
 			app := fiber.New(fiber.Config{TrustProxy: cs.Cfg.Trust, TrustProxyConfig: tp, ProxyHeader: cs.Cfg.Header, EnableIPValidation: cs.Cfg.Validate})
+			// Out(cfg, peer, ...) has no argument for other applications: a second application derived from this one's Config(),
+			// trusting exactly the peers this one must not trust, is created and dropped before any request is served
+			sib := app.Config()
+			sib.TrustProxy = true
+			sib.TrustProxyConfig.Proxies = []string{"203.0.113.0/24", "2001:db9::/32", "10.9.9.9"}
+			_ = fiber.New(sib)
 			app.Get("/", func(c fiber.Ctx) error {
 				*b.obs = c10Obs{IP: c.IP(), Host: c.Host(), Hostname: c.Hostname(), Scheme: c.Scheme(), BaseURL: c.BaseURL(), Secure: c.Secure(), Trusted: c.IsProxyTrusted()}
 				return nil
@@ -126,6 +132,10 @@ func TestC10(t *testing.T) {
 				fctx.Request.Header.Set("X-Forwarded-Host", "spoof.example")
 			}
 			switch cs.Hdrs.Scheme {
+			case "X-Forwarded-Proto=ftp":
+				fctx.Request.Header.Set("X-Forwarded-Proto", "ftp")
+			case "X-Url-Scheme=HTTPS":
+				fctx.Request.Header.Set("X-Url-Scheme", "HTTPS")
 			case "X-Forwarded-Proto", "X-Forwarded-Protocol", "X-Url-Scheme":
 				fctx.Request.Header.Set(cs.Hdrs.Scheme, "https")
 			case "X-Forwarded-Ssl":
